@@ -38,6 +38,7 @@ Ok(e) ==
    \* a nil geometry - also a typed nil slice at the top level - encodes to no bytes
    /\ IF e.g.t = "nil" \/ e.topnil = 1 THEN e.bytes = <<>> /\ e.val = <<>> ELSE
       /\ e.bytes = Enc(e.tab, e.g, e.le = 1, e.srid)                    \* byte for byte
+      /\ e.vstable = 1                                                   \* the previous event's bytes were left alone
       /\ e.decb.ok = 1 /\ e.decb.v = CanonDeep(e.g) /\ e.decb.srid = e.srid     \* one-shot byte decoder
       /\ e.decs.ok = 1 /\ e.decs.v = CanonDeep(e.g) /\ e.decs.srid = e.srid     \* streaming decoder
       /\ \A i \in 1..Len(e.scans) : ScanOk(e, e.scans[i])                        \* scanner x destinations x framings
